@@ -73,6 +73,13 @@ fn mac(m: &Macro) -> Value {
             return json!({"k":"matches","e":expr(&e),"pat":pat(&pt),"guard": g.as_ref().map(|x| expr(x)),"sp":sp(m)});
         }
     }
+    if name == "vec" {
+        // vec![elem; n]
+        let rp = |input: syn::parse::ParseStream| -> syn::Result<(Expr, Expr)> { let e: Expr = input.parse()?; input.parse::<Token![;]>()?; let n: Expr = input.parse()?; Ok((e, n)) };
+        if let Ok((e, n)) = rp.parse2(m.tokens.clone()) {
+            return json!({"k":"repeat","e":expr(&e),"n":expr(&n),"sp":sp(m)});
+        }
+    }
     match parser.parse2(m.tokens.clone()) {
         Ok(args) => json!({"k":"macro","name":name,"args":args.iter().map(expr).collect::<Vec<_>>(),"sp":sp(m)}),
         Err(_) => {
@@ -151,6 +158,7 @@ fn expr(e: &Expr) -> Value {
         Expr::Tuple(t) => json!({"k":"tuple","elems":t.elems.iter().map(expr).collect::<Vec<_>>(),"sp":s}),
         Expr::Array(t) => json!({"k":"array","elems":t.elems.iter().map(expr).collect::<Vec<_>>(),"sp":s}),
         Expr::Cast(c) => json!({"k":"cast","e":expr(&c.expr),"ty":ts(&c.ty),"sp":s}),
+        Expr::Repeat(r) => json!({"k":"repeat","e":expr(&r.expr),"n":expr(&r.len),"sp":s}),
         Expr::Macro(m) => mac(&m.mac),
         other => json!({"k":"unsupported","what":format!("expr {}", ts(other)),"sp":s}),
     }
@@ -183,7 +191,7 @@ fn item(i: &Item) -> Value {
             let items: Vec<Value> = im.items.iter().filter_map(|ii| match ii { ImplItem::Fn(f) if cfg_keep(&f.attrs) != Some(false) => Some(func(&f.sig, &f.block, &f.attrs)), _ => None }).collect();
             json!({"k":"impl","trait": im.trait_.as_ref().map(|t| path_segs(&t.1)),"trait_full": im.trait_.as_ref().map(|t| ts(&t.1)),"self_ty": ts(&im.self_ty),"items":items,"sp":sp(im)})
         }
-        Item::Struct(s) => json!({"k":"struct","name":s.ident.to_string(),"fields": s.fields.iter().enumerate().map(|(n,f)| json!({"name": f.ident.as_ref().map(|i| i.to_string()).unwrap_or(n.to_string()), "ty": ts(&f.ty)})).collect::<Vec<_>>()}),
+        Item::Struct(s) => json!({"k":"struct","name":s.ident.to_string(),"derives": s.attrs.iter().map(|a| ts(&a.meta)).collect::<Vec<_>>(),"fields": s.fields.iter().enumerate().map(|(n,f)| json!({"name": f.ident.as_ref().map(|i| i.to_string()).unwrap_or(n.to_string()), "ty": ts(&f.ty)})).collect::<Vec<_>>()}),
         Item::Enum(e) => json!({"k":"enum","name":e.ident.to_string(),"derives": e.attrs.iter().map(|a| ts(&a.meta)).collect::<Vec<_>>(),"variants": e.variants.iter().map(|v| json!({"name":v.ident.to_string(),"fields": v.fields.iter().enumerate().map(|(n,f)| f.ident.as_ref().map(|i| i.to_string()).unwrap_or(n.to_string())).collect::<Vec<_>>(), "named": matches!(v.fields, Fields::Named(_))})).collect::<Vec<_>>()}),
         Item::Mod(m) => {
             if is_test(&m.attrs) { return json!({"k":"skipped"}); }
